@@ -18,6 +18,7 @@ import (
 	disptypes "github.com/Sifchain/sifnode/x/dispensation/types"
 	sdk "github.com/cosmos/cosmos-sdk/types"
 	"github.com/cosmos/cosmos-sdk/version"
+	banktypes "github.com/cosmos/cosmos-sdk/x/bank/types"
 	upgradetypes "github.com/cosmos/cosmos-sdk/x/upgrade/types"
 	abci "github.com/tendermint/tendermint/abci/types"
 	"github.com/tendermint/tendermint/libs/log"
@@ -146,7 +147,8 @@ func init() {
 			mintedSum := big.NewInt(0)
 			for h = 2; h <= last && blocks < n; h++ {
 				cPrev, supPrev := counter(), sup()
-				holdPrev := new(big.Int).Add(bal(eco), bal(mod))
+				ecoPrevB, modPrevB := bal(eco), bal(mod)
+				holdPrev := new(big.Int).Add(ecoPrevB, modPrevB)
 				stepTag := "app.beginblock.dispensation.per-block"
 				if name, ok := upgrades[h]; ok {
 					// the node is stopped and the new release is started: its SetupHandlers registers, under its
@@ -173,6 +175,23 @@ func init() {
 					}
 					out.Hist["upgrade.applied"]++
 				}
+				if rng.Chance(1, 4) {
+					// a passed parameter-change proposal on the bank's SendEnabled parameters: rowan transfers
+					// frozen ({rowan,false} or DefaultSendEnabled=false) or enabled again
+					bctx := app.BaseApp.NewContext(false, tmproto.Header{Height: h, ChainID: chainID})
+					bp := banktypes.Params{DefaultSendEnabled: true}
+					def, row := "1", "1"
+					switch rng.Intn(3) {
+					case 0:
+						bp.SendEnabled = []*banktypes.SendEnabled{{Denom: "rowan", Enabled: false}}
+						row = "0"
+					case 1:
+						bp.DefaultSendEnabled = false
+						def = "0"
+					}
+					app.BankKeeper.SetParams(bctx, bp)
+					out.Emit(fmt.Sprintf("mint.bankparams %s %s", def, row), "ok", "bankparams."+def+row, false)
+				}
 				if name, ok := upgrades[h+2]; ok {
 					// a passed SoftwareUpgradeProposal schedules the plan
 					sctx := app.BaseApp.NewContext(false, tmproto.Header{Height: h, ChainID: chainID})
@@ -191,6 +210,10 @@ func init() {
 				modMid := app.BankKeeper.GetBalance(dctx, mod, "rowan").Amount.BigInt()
 				out.Emit(fmt.Sprintf("mint.appbegin %d %s", h, cPrev), fmt.Sprintf("c=%s sup=%s eco=%s mod=%s", cMid, supMid, ecoMid, modMid), "begin", cMid != cPrev)
 				out.Emit(fmt.Sprintf("chk c20.mintstep tag=%s %s %s %s %s %s %s %s", stepTag, per, cPrev, cMid, supPrev, supMid, holdPrev, new(big.Int).Add(ecoMid, modMid)), "true", "chk.mintstep", false)
+				// wired app, ecosystem pool not blocked: what was counted reached the pool, the module account keeps none of it
+				if cp, ok1 := new(big.Int).SetString(cPrev, 10); ok1 && cMid != "none" {
+					out.Emit(fmt.Sprintf("chk c20.minteco tag=app.beginblock.mint-reaches-eco-pool %s %s %s %s %s %s", cp, cMid, ecoPrevB, ecoMid, modPrevB, modMid), "true", "chk.minteco", false)
+				}
 				// the programme's running total: counter = initial counter + everything created in the begin blocks, and <= cap
 				mintedSum.Add(mintedSum, new(big.Int).Sub(supMid, supPrev))
 				if c0v != nil && cMid != "none" {
